@@ -508,7 +508,7 @@ class Bytecode:
     Iterating over these yields the bytecode operations as Instruction instances.
     """
 
-    def __init__(self, x, opc, first_line=None, current_offset=None, dup_lines=True):
+    def __init__(self, x, opc, first_line=None, current_offset=None, dup_lines=False):
         self.codeobj = co = get_code_object(x)
         self._line_offset = 0
         self._cell_names = ()
